@@ -46,4 +46,6 @@ _f("rig/routing_table/ordered_covering.py::ordered_covering")
 _f("rig/routing_table/minimise.py::minimise_table")
 _f("rig/routing_table/minimise.py::minimise_tables")
 # ---- contexts --------------------------------------------------------------------------------------------------------
-_f("rig/utils/contexts.py::Context.__init__", modifies=("self",))
+# (a context keeps its OWN dictionary and list: Context.update / before_close change them in place, and the controllers pass
+#  the mutable default argument of their constructors down to it)
+_f("rig/utils/contexts.py::Context.__init__", modifies=("self",), owned=("context_arguments", "_before_close"))
